@@ -461,6 +461,10 @@ impl LyNative for ListRemove {
     let index = args[1].to_num();
     let mut list = args[0].to_obj().to_list();
 
+    if index.fract() != 0.0 {
+      return self.call_error(hooks, "Index must be an integer.");
+    }
+
     if index < 0.0 {
       return self.call_error(hooks, format!("Cannot remove at negative index {index}."));
     }
@@ -505,6 +509,10 @@ impl LyNative for ListInsert {
   fn call(&self, hooks: &mut Hooks, args: &[Value]) -> Call {
     let index = args[1].to_num();
     let mut list = args[0].to_obj().to_list();
+
+    if index.fract() != 0.0 {
+      return self.call_error(hooks, "Index must be an integer.");
+    }
 
     if index < 0.0 {
       return self.call_error(hooks, format!("Cannot insert at index {index}"));
